@@ -134,6 +134,12 @@ place(int len, int placement, int off, unsigned char **s, unsigned char **d, int
         }
 }
 
+static int refused; /* the raw kernel returned non-zero for a length below its documented minimum */
+typedef int (*idot1_fn)(int, int, unsigned char *, unsigned char **, unsigned char *);
+typedef int (*idotn_fn)(int, int, unsigned char *, unsigned char **, unsigned char **);
+typedef int (*imad1_fn)(int, int, int, unsigned char *, unsigned char *, unsigned char *);
+typedef int (*imadn_fn)(int, int, int, unsigned char *, unsigned char *, unsigned char **);
+static long below_min_calls, below_min_accepted;
 static void
 check(const char *entry, const char *isa, int len, int placement, int off, unsigned char **s,
       unsigned char **d, int row0, int nrows, unsigned char **want, int faulted)
@@ -146,7 +152,7 @@ check(const char *entry, const char *isa, int len, int placement, int off, unsig
         }
         for (r = 0; r < nrows; r++) {
                 long bad;
-                for (i = 0; i < len; i++)
+                for (i = 0; i < len && !refused; i++) /* (a kernel that refused a length below its documented minimum: only the memory rules apply) */
                         if (d[r][i] != want[row0 + r][i]) {
                                 report("wrong-byte", entry, isa, len, placement, off, row0 + r, i);
                                 break;
@@ -181,7 +187,7 @@ enc_point(int len, int placement, int off, int disp_is_gfni)
 {
         unsigned char *s[MAXK], *d[MAXR];
         unsigned ia;
-        int n, faulted;
+        int n, faulted, below;
         for (ia = 0; ia < NISA; ia++) {
                 struct isa *a = &isas[ia];
                 unsigned char *t = tables_for(a);
@@ -197,30 +203,41 @@ enc_point(int len, int placement, int off, int disp_is_gfni)
                         check("ec_encode_data", a->name, len, placement, off, s, d, 0, rows, expv, faulted);
                         covered_entry[ia][0]++;
                 }
-                /* raw kernels: honour the documented minimum length */
-                if (len < a->minlen || a->gfni == -1)
+                /* raw kernels: from the documented minimum length on they must produce the result; below it they may refuse (non-zero
+                 * return, nothing written outside the destination) - but whatever they accept must be right */
+                if (a->gfni == -1)
                         continue;
+                below = len < a->minlen;
                 if (a->dot1) { /* each row alone through the 1-vector kernel */
-                        int r = (len + off) % rows;
+                        int r = (len + off) % rows, ret = 0;
                         place(len, placement, off, s, d, 1, 0, NULL);
                         faulted = 0;
-                        VH_TRY { a->dot1(len, k, t + r * k * st, s, d[0]); }
+                        VH_TRY { ret = ((idot1_fn) a->dot1)(len, k, t + r * k * st, s, d[0]); }
                         VH_CATCH { faulted = 1; }
                         VH_DONE;
+                        refused = below && ret != 0;
+                        below_min_calls += below;
+                        below_min_accepted += below && !refused;
                         check("gf_vect_dot_prod", a->name, len, placement, off, s, d, r, 1, expv, faulted);
+                        refused = 0;
                         covered_entry[ia][1]++;
                 }
                 for (n = 2; n <= 6; n++)
                         if (a->dotn[n] && rows >= n) {
                                 int r0 = (len + off) % (rows - n + 1);
                                 char nm[32];
+                                int ret = 0;
                                 place(len, placement, off, s, d, n, 0, NULL);
                                 faulted = 0;
-                                VH_TRY { a->dotn[n](len, k, t + r0 * k * st, s, d); }
+                                VH_TRY { ret = ((idotn_fn) a->dotn[n])(len, k, t + r0 * k * st, s, d); }
                                 VH_CATCH { faulted = 1; }
                                 VH_DONE;
                                 sprintf(nm, "gf_%dvect_dot_prod", n);
+                                refused = below && ret != 0;
+                                below_min_calls += below;
+                                below_min_accepted += below && !refused;
                                 check(nm, a->name, len, placement, off, s, d, r0, n, expv, faulted);
+                                refused = 0;
                                 covered_entry[ia][n]++;
                         }
         }
@@ -235,7 +252,7 @@ upd_point(int len, int placement, int off, int disp_is_gfni)
 {
         unsigned char *s[MAXK], *d[MAXR];
         unsigned ia;
-        int n, st_i, faulted;
+        int n, st_i, faulted, below;
         for (ia = 0; ia < NISA; ia++) {
                 struct isa *a = &isas[ia];
                 unsigned char *t = tables_for(a);
@@ -255,32 +272,39 @@ upd_point(int len, int placement, int off, int disp_is_gfni)
                                       after, faulted);
                                 covered_entry[ia][8]++;
                         }
-                        if (len < a->minlen || a->gfni == -1)
+                        if (a->gfni == -1)
                                 continue;
+                        below = len < a->minlen;
                         /* raw kernels on a rotating subset of steps to bound the cost */
                         if ((st_i + len) % 3 != 0)
                                 continue;
                         if (a->mad1) {
-                                int r = (len + off + st_i) % rows;
+                                int r = (len + off + st_i) % rows, ret = 0;
                                 place(len, placement, off, s, d, 1, 1, before + r);
                                 faulted = 0;
-                                VH_TRY { a->mad1(len, k, vi, t + r * k * st, s[vi], d[0]); }
+                                VH_TRY { ret = ((imad1_fn) a->mad1)(len, k, vi, t + r * k * st, s[vi], d[0]); }
                                 VH_CATCH { faulted = 1; }
                                 VH_DONE;
-                                check("gf_vect_mad", a->name, len, placement, off, s, d, r, 1, after, faulted);
+                                below_min_calls += below;
+                                below_min_accepted += below && ret == 0;
+                                /* a refused accumulate must leave the parity as it was */
+                                check("gf_vect_mad", a->name, len, placement, off, s, d, r, 1, below && ret != 0 ? before : after, faulted);
                                 covered_entry[ia][9]++;
                         }
                         for (n = 2; n <= 6; n++)
                                 if (a->madn[n] && rows >= n) {
                                         int r0 = (len + off + st_i) % (rows - n + 1);
                                         char nm[32];
+                                        int ret = 0;
                                         place(len, placement, off, s, d, n, 1, before + r0);
                                         faulted = 0;
-                                        VH_TRY { a->madn[n](len, k, vi, t + r0 * k * st, s[vi], d); }
+                                        VH_TRY { ret = ((imadn_fn) a->madn[n])(len, k, vi, t + r0 * k * st, s[vi], d); }
                                         VH_CATCH { faulted = 1; }
                                         VH_DONE;
                                         sprintf(nm, "gf_%dvect_mad", n);
-                                        check(nm, a->name, len, placement, off, s, d, r0, n, after, faulted);
+                                        below_min_calls += below;
+                                        below_min_accepted += below && ret == 0;
+                                        check(nm, a->name, len, placement, off, s, d, r0, n, below && ret != 0 ? before : after, faulted);
                                         covered_entry[ia][8 + n]++;
                                 }
                 }
@@ -430,6 +454,7 @@ main(int argc, char **argv)
         {
                 unsigned ia;
                 int e;
+                fprintf(out, "{\"e\":\"below_min\",\"calls\":%ld,\"accepted\":%ld}\n", below_min_calls, below_min_accepted);
                 fprintf(out, "{\"e\":\"summary\",\"mul_calls\":%ld,\"calls\":%ld,\"mismatches\":%ld,\"faults\":%ld,\"entries\":{", mul_calls, calls, mism,
                         vh_faults);
                 for (ia = 0; ia < NISA; ia++) {
